@@ -56,4 +56,33 @@ theorem nohardlinks_agree :
 theorem repaired_agree :
     inodesOf (packDir true dflt cfg fnm 1 [fc, fb, fa]) = some [[[0x61]], [[0x62]], []] := by decide
 
+/-! The hard-link filter unifies every multiply-linked **non-directory**, not only regular files: with regular files
+filtered out (`-type d -type l`, i.e. `DIR_SCAN_NO_FILE` set) the pinned iterator is still order dependent for a symlink
+with two names.  So "no regular files wanted" is not a licence to skip the sort in the native iterator (seeded change
+C11-a2), and the hypothesis of `scan_perm_invariant_partial` cannot be weakened to `DIR_SCAN_NO_FILE`. -/
+
+def lst (ino : Nat) : Stat := { mode := 0o120777, uid := 0, gid := 0, mtime := 0, dev := 1, ino := ino, rdev := 0 }
+def lc : HNode := .mk [0x63] (lst 10) [0x78] []
+def lk : HNode := .mk [0x6b] (lst 11) [0x79] []
+def ls : HNode := .mk [0x73] (lst 10) [0x78] []
+/-- `glob / * * * -type d -type l` -/
+def cfgNoFile : Cfg :=
+  { cfg with flags := cfg.flags ||| dirScanNoFile ||| dirScanNoBlk ||| dirScanNoChr ||| dirScanNoFifo ||| dirScanNoSock }
+
+theorem nofile_inodes_cks : inodesOf (packDir false dflt cfgNoFile fnm 1 [lc, lk, ls]) = some [[[0x63]], [[0x6b]], []] := by decide
+theorem nofile_inodes_skc : inodesOf (packDir false dflt cfgNoFile fnm 1 [ls, lk, lc]) = some [[[0x6b]], [[0x73]], []] := by decide
+
+theorem nofile_filter_order_dependent :
+    hasFlag cfgNoFile.flags dirScanNoFile = true ∧
+    packDir false dflt cfgNoFile fnm 1 [lc, lk, ls] ≠ packDir false dflt cfgNoFile fnm 1 [ls, lk, lc] := by
+  refine ⟨by decide, ?_⟩
+  intro h
+  have := congrArg inodesOf h
+  rw [nofile_inodes_cks, nofile_inodes_skc] at this
+  exact absurd this (by decide)
+
+/-- the repaired iterator is not affected -/
+theorem nofile_repaired_agree :
+    inodesOf (packDir true dflt cfgNoFile fnm 1 [ls, lk, lc]) = inodesOf (packDir true dflt cfgNoFile fnm 1 [lc, lk, ls]) := by decide
+
 end Sqfs.Witness.C11
